@@ -207,6 +207,9 @@ for (fn, fam, P, B, LANES, c, fl, EFN, INC, XB, R) in SIMD:
     J(c + "cleanup", ["C15", "C17"], HS, "h_cleanup", enforce=P + "_cleanup", cflags=fl, replace=["skinny_cleanse"],
       must_have=PC + ["C17 erasure"], replay=R + "_life,erase",
       note="base pointer read before the wipe, whole context wiped, base freed exactly once (layout: aligned pointer == block base)")
+    J(c + "cleanup.off16", ["C15", "C17"], HS, "h_cleanup", enforce=P + "_cleanup", cflags=fl, replace=["skinny_cleanse"], defs=["VERIF_LAYOUT_OFF=16"],
+      must_have=PC + ["C17 erasure"], replay=R + "_life,erase",
+      note="the same for the layout aligned pointer == block base + 16 (live object): the CONTEXT is wiped - not the first bytes of the block -, the block base is what is freed")
     J(c + "increment", ["C05"], HS, "h_increment", enforce=INC, cflags=fl, loops=False, unwind=70, must_have=PC, replay=R,
       note="lane `column` += inc as a big-endian %d-bit integer incl. every carry and wrap; other lanes unchanged; %d-iteration loop unwound (complete; bound 70 so that a loop "
            "that a change makes data dependent is still executed to its end)" % (8 * B, B))
@@ -263,11 +266,11 @@ for h, nt in (("h_skinny128_round_inverse", "all 2^(128+64) (state, round key) p
 for (pre, H, R, fns) in (("s128.", "h_skinny128_cipher.c", "skinny128", ["encrypt", "decrypt"]), ("s64.", "h_skinny64_cipher.c", "skinny64", ["encrypt", "decrypt"])):
     for d in fns:
         J(pre + "overlap_" + d, ["C09"], H, "h_overlap_" + d, enforce="verif_overlap_" + d, must_have=LC + PC, replay=R, timeout=2400,
-          tier="quick" if pre == "s64." else "thorough", functions=[R + "_ecb_" + d],
+          tier="quick" if (pre == "s64." or d == "encrypt") else "thorough", functions=[R + "_ecb_" + d],
           note="input = buf+a, output = buf+b in one object, a,b symbolic: every overlap and every alignment; writes confined to output[0..block)")
 for d in ("crypt", "crypt_tweaked"):
     J("m.overlap_" + d, ["C09"], "h_mantis_cipher.c", "h_overlap_" + d, enforce="verif_overlap_" + d, must_have=LC + PC, replay="mantis", timeout=2400,
-      tier="thorough", functions=["mantis_ecb_" + d], note="every overlap offset and alignment of input/output")
+      tier="quick" if d == "crypt" else "thorough", functions=["mantis_ecb_" + d], note="every overlap offset and alignment of input/output")
 
 # ------------------------------------------------------------------ C08: two-run self-composition with leakage ghost state
 # (plain CBMC on the instrumented real code; loops are bounded by program constants / public parameters and are
@@ -532,8 +535,8 @@ def _quick_case(jid):
 for _j in JOBS:
     if not _quick_case(_j.id.split("@")[0]):
         _j.tier = "thorough"
-    if _j.id.startswith("v128b.") and _re.search(r"\.(set_counter|encrypt|eblock)", _j.id) and not _j.id.endswith((".len0", ".len16")):
-        _j.tier = "thorough"   # the 256-bit back end: life cycle, lane increment and boundary cases stay in quick
+    if _j.id.startswith("v128b.") and _re.search(r"\.(set_counter\.len|eblock)", _j.id) and not _j.id.endswith((".len0", ".len16")):
+        _j.tier = "thorough"   # the 256-bit back end: life cycle, lane increment, the encrypt loop and boundary cases stay in quick
 
     if _re.match(r"^pv\w+\.|^v\w+\.(eblock|encrypt)$|\.def_encrypt$", _j.id):
         # the slow vector / coverage proofs: every-change tier only for the properties they carry
@@ -549,6 +552,36 @@ for _j in JOBS:
         # the vector inverse rounds are separate code from the scalar ones: C03's every-change tier must see them
         # (round-4 seeded change C03-vec128-inv-sbox-lane-mixup was missed by C03 quick, caught only by C07 quick / C03 thorough)
         _j.quick_only_for = {"C07", "C05", "C03"}
+
+# C05 speaks about call sequences: "key and tweak in place before the first data call" - the key / tweak setters of every CTR
+# back end and of the dispatcher must leave the counter alone and reset the keystream, which is what their frames and
+# postconditions say (round-6 seeded change C05-skinny64-simd-set-key-wipes-counter was missed because these jobs were not listed
+# under C05; C06 and C14 did report it).
+for _j in JOBS:
+    if _re.match(r"^(v128a|v128b|v64|vm|c128|c64|cm|w128|w64|wm)\.(def_)?set_(key|tweaked_key|tweak)(\.\w+)?$", _j.id) and not _j.id.endswith(".c06") \
+            and "C05" not in _j.props:
+        _j.props.append("C05")
+
+# the key / tweak setters of the CTR back ends are replayed with the stream family as well (counter set before or after them)
+for _j in JOBS:
+    if _re.match(r"^(v128a|v128b|v64|vm|c128|c64|cm)\.(def_)?set_(key|tweaked_key|tweak)(\.\w+)?$", _j.id) and _j.replay and _j.replay.endswith("_life"):
+        _j.replay = _j.replay + "," + _j.replay[:-5]
+
+# Further listings found by auditing the job/property table (a job decides every property whose statement speaks about
+# the function it proves; listing it under fewer properties only weakens that property's check):
+def _also(rx, *props):
+    for _j in JOBS:
+        if _re.match(rx, _j.id) and not _j.id.endswith(".c06") and "@" not in _j.id:
+            for _p in props:
+                if _p not in _j.props:
+                    _j.props.append(_p)
+
+
+_also(r"^w(128|64|m)\.(init|set_counter|encrypt)$", "C05")                      # the public CTR entry points are part of every stream
+_also(r"^(v128a|v128b|v64)\.set_tweaked_key$|^w(128|64)\.set_(tweak|tweaked_key)$", "C04")   # CTR tweak API delegates
+_also(r"^vm\.set_(key|tweak)(\.\w+)?$|^wm\.set_(key|tweak)$", "C02")            # Mantis schedule through the CTR object
+_also(r"^p(128|64|m)\.set_key(\.\w+)?$", "C07")                               # "under one key": the parallel object's key
+_also(r"^w(128|64|m)\.set_(key|tweaked_key)$", "C10")                          # lengths are passed through unchanged
 
 # C06 is decided as a corollary: every back end meets the SAME stream contracts.  All C05 obligations (generic back end, helpers,
 # SIMD lane increment, set_counter, encrypt) are therefore obligations of C06 as well (round-5 seeded change
